@@ -323,8 +323,68 @@ def part_d(ctx, rng, n):
                     break
 
 
+def part_e(ctx, rng, n):
+    """range searches, minKey / maxKey and lazy sequences on a stored tree whose nodes are all evicted before each query"""
+    for it in range(n):
+        kind = rng.choice(["BTree", "TreeSet"])
+        fn = rng.choice(ALL_FAMS)
+        impl = rng.choice(["C", "C", "Py"])
+        env = TreeEnv(fn, kind, impl, "int" if fn[0] == "O" else None)
+        ml, mi = rng.choice([(2, 2), (2, 3), (3, 3)])
+        with env.sized(ml, mi):
+            jar = Jar(Storage())
+            t = env.new()
+            keys = sorted(rng.sample(range(0, 80, 2), rng.randint(6, 30)))
+            for k in keys:
+                env.call(t, ("add", k) if env.setlike else ("set", k, k % 4))
+            for k in rng.sample(keys, rng.randint(0, len(keys) // 3)):
+                env.call(t, ("remove", k) if env.setlike else ("del", k))
+            if f16_condition(None, t):
+                continue
+            jar.add(t)
+            jar.commit()
+            present = sorted(env.km.ik(k) for k in t)
+            if not present:
+                continue
+            bad = None
+            probes = rng.sample(present, min(len(present), 8)) + [present[0] - 1, present[-1] + 1, present[len(present) // 2] + 1]
+            for b in probes:
+                for kw in ({"min": b}, {"max": b}, {"min": b, "excludemin": True}, {"max": b, "excludemax": True}):
+                    jar.minimize()
+                    lo, hi = kw.get("min"), kw.get("max")
+                    want = [k for k in present if (lo is None or (k > lo if kw.get("excludemin") else k >= lo)) and (hi is None or (k < hi if kw.get("excludemax") else k <= hi))]
+                    args = {("min" if a == "min" else "max" if a == "max" else a): (env.k(v) if a in ("min", "max") else v) for a, v in kw.items()}
+                    try:
+                        got = [env.km.ik(k) for k in t.keys(**args)]
+                    except Exception as e:  # noqa
+                        got = "raises %s" % type(e).__name__
+                    if got != want and bad is None:
+                        bad = "keys(%r) on the evicted tree -> %r, expected %r" % (kw, got, want)
+                jar.minimize()
+                try:
+                    mk = env.km.ik(t.minKey(env.k(b)))
+                except ValueError:
+                    mk = None
+                wantmk = next((k for k in present if k >= b), None)
+                if mk != wantmk and bad is None:
+                    bad = "minKey(%r) on the evicted tree -> %r, expected %r" % (b, mk, wantmk)
+                jar.minimize()
+                try:
+                    xk = env.km.ik(t.maxKey(env.k(b)))
+                except ValueError:
+                    xk = None
+                wantxk = next((k for k in reversed(present) if k <= b), None)
+                if xk != wantxk and bad is None:
+                    bad = "maxKey(%r) on the evicted tree -> %r, expected %r" % (b, xk, wantxk)
+            ctx.count(("e", fn, kind, impl, ml, mi, tuple(present)))
+            if bad:
+                ctx.oracle_failure("%s:%s:range-on-evicted-tree" % (impl, kind), "%s%s/%s sizes=(%d,%d) keys %r stored, every node evicted before the query: %s" % (fn, kind, impl, ml, mi, present, bad),
+                                   {"family": fn, "kind": kind, "impl": impl, "sizes": [ml, mi], "keys": present})
+
+
 def run(ctx):
     rng = ctx.rng
+    part_e(ctx, rng, ctx.n(60, 3000))
     part_a(ctx, rng, ctx.n(600, 40000))
     part_b(ctx, rng, ctx.n(300, 25000))
     part_c(ctx, rng, ctx.n(400, 25000))
